@@ -678,7 +678,17 @@ fn jclass(op: &JOp, hdr_seen: &mut u32, trunc_seen: &mut u32) -> String {
 /// The journal of one call as operation classes (spec/StoreOrder.tla)
 pub fn journal_classes(jops: &[JOp]) -> Value {
     let (mut h, mut t) = (0, 0);
-    json!(jops.iter().map(|o| jclass(o, &mut h, &mut t)).collect::<Vec<String>>())
+    let mut out: Vec<String> = vec![];
+    for o in jops {
+        let c = jclass(o, &mut h, &mut t);
+        // the envelope is blind to how many pages or nodes one flush writes: a run of them is
+        // recorded once (a bulk append flushes tens of thousands of nodes)
+        if (c == "f_pages" || c == "f_nodes") && out.last() == Some(&c) {
+            continue;
+        }
+        out.push(c);
+    }
+    json!(out)
 }
 
 /// Number of journal operations that precede program counter `pc` of spec/HcStore.tla: the
